@@ -26,7 +26,8 @@ type c06flow struct{ act, inact time.Time }
 
 type c06op struct {
 	name string
-	kind byte // 'r' record, 'a' advance, 's' scan
+	kind byte // 'r' record(s) in one message, 'a' advance, 's' scan
+	keys []int
 	key  int
 	d    int
 	fail uint // bitmask of keys the callback fails on
@@ -45,7 +46,13 @@ type c06sys struct {
 func c06Ops(nkeys int) []c06op {
 	var ops []c06op
 	for k := 0; k < nkeys; k++ {
-		ops = append(ops, c06op{name: fmt.Sprintf("Rec(k%d)", k), kind: 'r', key: k})
+		ops = append(ops, c06op{name: fmt.Sprintf("Rec(k%d)", k), kind: 'r', key: k, keys: []int{k}})
+	}
+	// one message carrying records of several flows
+	if nkeys == 2 {
+		ops = append(ops, c06op{name: "Msg(k0,k1)", kind: 'r', keys: []int{0, 1}}, c06op{name: "Msg(k1,k0)", kind: 'r', keys: []int{1, 0}})
+	} else {
+		ops = append(ops, c06op{name: "Msg(k0,k1,k2)", kind: 'r', keys: []int{0, 1, 2}}, c06op{name: "Msg(k2,k0)", kind: 'r', keys: []int{2, 0}})
 	}
 	for _, d := range []int{1, 2, 4, 6} {
 		ops = append(ops, c06op{name: fmt.Sprintf("Adv(%d)", d), kind: 'a', d: d})
@@ -138,17 +145,22 @@ func (s *c06sys) Apply(opi int) (v *xplore.Violation) {
 	case 'a':
 		vsched.SeqAdvance(time.Duration(op.d) * unit)
 	case 'r':
-		s.count[op.key]++
-		c := s.count[op.key]
-		rec := aggfix.Record(aggfix.Spec{Key: op.key, FlowType: 1, From: aggfix.Both, Start: 1000, End: 1000 + c,
-			PktTot: uint64(c) * 10, PktDelta: 10, OctTot: uint64(c) * 1000, OctDelta: 1000, TCPState: "ESTABLISHED"})
-		if err := s.ap.AggregateMsgByFlowKey(aggfix.Msg(rec)); err != nil {
+		var recs []entities.Record
+		for _, k := range op.keys {
+			s.count[k]++
+			c := s.count[k]
+			recs = append(recs, aggfix.Record(aggfix.Spec{Key: k, FlowType: 1, From: aggfix.Both, Start: 1000, End: 1000 + c,
+				PktTot: uint64(c) * 10, PktDelta: 10, OctTot: uint64(c) * 1000, OctDelta: 1000, TCPState: "ESTABLISHED"}))
+		}
+		if err := s.ap.AggregateMsgByFlowKey(aggfix.Msg(recs...)); err != nil {
 			return xplore.V("aggregate-error", "%s: %v", op.name, err)
 		}
-		if f, ok := s.model[op.key]; ok {
-			f.inact = now.Add(s.I)
-		} else {
-			s.model[op.key] = &c06flow{act: now.Add(s.A), inact: now.Add(s.I)}
+		for _, k := range op.keys {
+			if f, ok := s.model[k]; ok {
+				f.inact = now.Add(s.I)
+			} else {
+				s.model[k] = &c06flow{act: now.Add(s.A), inact: now.Add(s.I)}
+			}
 		}
 	case 's':
 		var fired []int
@@ -409,7 +421,7 @@ func runC06(tier, replay string) int {
 	ev.Coverage = common.Coverage{
 		"states": tot.States, "transitions": tot.Trans, "traces_validated_against_impl": tot.Traces, "samples": tot.Samples,
 		"evaluations": tot.Traces, "distinct_nontrivial": tot.Interesting,
-		"rule":       "pass (a): every history over {Rec(k), Adv(1|2|4|6), Scan(fail set F) for every F subset of keys} up to hist_depth on a fresh AggregationProcess under the virtual clock (exact time, so deadline == now is reached), checked after every op against the expiry model and the map/heap snapshot; pass (b): BFS de-duplicated on (heap array with deadlines relative to now, overdue ones abstracted to dense ranks) until closure. distinct_nontrivial = distinct reachable states holding at least one overdue flow",
+		"rule":       "pass (a): every history over {Rec(k), one message carrying records of several flows, Adv(1|2|4|6), Scan(fail set F) for every F subset of keys} up to hist_depth on a fresh AggregationProcess under the virtual clock (exact time, so deadline == now is reached), checked after every op against the expiry model and the map/heap snapshot; pass (b): BFS de-duplicated on (heap array with deadlines relative to now, overdue ones abstracted to dense ranks) until closure. distinct_nontrivial = distinct reachable states holding at least one overdue flow",
 		"exhaustive": tot.Exhaustive && tot.ClosedAll, "closed": tot.ClosedAll, "per_config": tot.PerCfg,
 	}
 	ev.Assumptions = []string{"a deadline exactly equal to the scan time may or may not fire, and an inactive deadline equal to the scan time may or may not remove (the statement says 'has passed')", "after a failed callback the flow may keep its old deadlines or be re-armed, but must stay scheduled"}
